@@ -612,11 +612,14 @@ class Sun(object):
         # that arises in cases where alpha was just past the spring equinox
         # but l0 was still < 360. In those cases e was incorrectly calculated
         # The solution is to keep e as a float and reduce to range -180..+180
+        e = e()
         e = e - 360.0 * round(e / 360.0)
         e *= 4.0
         # Extract seconds
-        s = (abs(e()) % 1) * 60.0
-        m = int(e())
+        s = (abs(e) % 1) * 60.0
+        m = int(e)
+        if m == 0 and e < 0.0:
+            s = -s  # No minutes to carry the sign: the seconds carry it
         return m, s
 
     @staticmethod
